@@ -151,6 +151,17 @@ def run_config(chk, cfgname, prefixes):
     return replay_and_validate(chk, beh, cfgname, prefixes)
 
 
+def random_histories(chk, prefixes, quick_n=150, thorough_n=4000):
+    """implementation -> specification: long random mixed histories (checks/histsim.py)"""
+    from checks import histsim
+    n = thorough_n if chk.tier == "thorough" else quick_n
+    if n <= 0:
+        return
+    beh = histsim.behaviours(chk.seed, n)
+    chk.cov["random_histories"] = chk.cov.get("random_histories", 0) + n
+    return replay_and_validate(chk, beh, "random-histories", prefixes, isolate=True)
+
+
 def finish_cov(chk, rule, exhaustive, note):
     chk.cov["rule"] = rule
     chk.cov["exhaustive"] = exhaustive
